@@ -374,9 +374,12 @@ def findByLineFastLoop (cfg : Config) (m : MatcherI) (buf : Bytes) : Nat → Nat
         else some line
       | some (.candidate i) =>
         let line := locate buf cfg.lineTerm.asByte ⟨pos + i, pos + i⟩
-        let sl := withoutTerminator (slice buf line.s line.e) cfg.lineTerm
-        if m.isMatch sl then some line
-        else findByLineFastLoop cfg m buf fuel line.e
+        -- /repo 4165f41: as above, a candidate at the position behind the final terminator is not a line
+        if line.s == buf.length then findByLineFastLoop cfg m buf fuel buf.length
+        else
+          let sl := withoutTerminator (slice buf line.s line.e) cfg.lineTerm
+          if m.isMatch sl then some line
+          else findByLineFastLoop cfg m buf fuel line.e
 
 /-- `Core::find_by_line_fast`. -/
 def findByLineFast (cfg : Config) (m : MatcherI) (buf : Bytes) (st : Core) : Option Span :=
